@@ -628,7 +628,7 @@ func TestVerifC11Msg(t *testing.T) {
 	r := ev.Start(t, "C11")
 	defer r.Finish()
 	vc11Setup()
-	depth := ev.Pick(r, 3, 5)
+	depth := ev.Pick(r, 4, 6)
 	res := mc.Run(r, mc.System{
 		Name: "message-backup-roundtrip", New: vc11NewInst, MaxDepth: depth, KeepGoing: true,
 		Bounds: map[string]any{"channels": 2, "alphabet": "per channel: exact append (uncommitted, commits its predecessors), follower apply (row + HW + epoch point), commit advance by one, retention trim of one more committed row"},
@@ -636,6 +636,7 @@ func TestVerifC11Msg(t *testing.T) {
 	})
 	h1 := []string{"xap:A", "xap:A"}                          // one committed exact row + uncommitted suffix
 	h2 := []string{"fol:A", "fol:A", "trm:A", "xap:B", "xap:B"} // plain rows, history, retention; second channel: committed exact row + uncommitted suffix
+	h3 := []string{"xap:A", "xap:A", "fol:B", "trm:B"}          // the loosely validated fields (cut epoch, cursor, retention) of the second channel lie deep in the stream
 	if rf := r.Replay(); rf != nil {
 		// enumeration / crash sections are cheap: re-run the whole section of the recorded violation
 		before := r.ViolationCount()
@@ -644,6 +645,8 @@ func TestVerifC11Msg(t *testing.T) {
 			vc11Corruption(r, "exact", h1, false, vc11Importers, nil)
 		case "message-corruption/two-channels":
 			vc11Corruption(r, "two-channels", h2, false, vc11Importers, nil)
+		case "message-corruption/deep-metadata":
+			vc11Corruption(r, "deep-metadata", h3, false, vc11Importers, nil)
 		case "message-resealed-mismatch/exact":
 			vc11Corruption(r, "exact", h1, true, vc11Importers, map[string]bool{"bytes": true})
 		case "message-resealed-mismatch/two-channels":
@@ -661,6 +664,7 @@ func TestVerifC11Msg(t *testing.T) {
 	r.Guard("message-roundtrip-states", res.States >= 50, "%d states explored", res.States)
 	vc11Corruption(r, "exact", h1, false, vc11Importers, nil)
 	vc11Corruption(r, "two-channels", h2, false, vc11Importers, nil)
+	vc11Corruption(r, "deep-metadata", h3, false, vc11Importers, nil)
 	vc11Corruption(r, "exact", h1, true, vc11Importers, map[string]bool{"bytes": true})
 	if r.Thorough() {
 		vc11Corruption(r, "two-channels", h2, true, vc11Importers, map[string]bool{"bytes": true})
